@@ -136,7 +136,10 @@ MovesWinS(h, kn) ==
         \o (IF o2 # <<>> THEN <<MMutate(i, <<KV(wname, Win("row_number", <<>>, o2))>>),
                                 MMutate(i, <<KV(wname, Win("cum_sum", <<Col(x)>>, o2))>>),
                                 MMutate(i, <<KV(wname, Shift(Col(x), 1, <<>>, o2))>>)>> ELSE <<>>)
-        \o <<MMutate(i, <<KV(wname, Agg("sum", Col(x)))>>), MMutate(i, <<KV(wname, Len0)>>)>>
+        \o <<MMutate(i, <<KV(wname, Agg("sum", Col(x)))>>), MMutate(i, <<KV(wname, Len0)>>),
+              \* the only window function sits in the otherwise-branch / in the then-branch of a case expression
+              MMutate(i, <<KV(wname, Case1D(Fn2("gt", Col(iv[1]), LitI(0)), Col(x), Agg("sum", Col(x))))>>),
+              MMutate(i, <<KV(wname, Case1D(Fn2("gt", Col(iv[1]), LitI(0)), Agg("max", Col(x)), LitI(0)))>>)>>
         \o <<MFilter(i, <<Fn2("gt", Col(iv[1]), LitI(0))>>)>>
         \o MapS(SelectSeq(iv, LAMBDA c : t.nm[c] = "g"), LAMBDA c : MGroupBy(i, <<Col(c)>>, FALSE))
         \o <<MAlias(i, t.name, TRUE)>>
